@@ -171,6 +171,13 @@ func IsBoundaryVal(a any) bool {
 func IsStringVal(a any) bool { _, ok := a.(string); return ok }
 func StringOf(a any) string  { s, _ := a.(string); return s }
 
+// IsColumnVal / ColumnOf: a holds a column name.
+func IsColumnVal(a any) bool { _, ok := a.(expr.Column); return ok }
+func ColumnOf(a any) string {
+	c, _ := a.(expr.Column)
+	return string(c)
+}
+
 // NotTypedNil: a is not a typed-nil expression pointer.
 func NotTypedNil(a any) bool {
 	e, ok := a.(*expr.Expression)
@@ -234,6 +241,8 @@ func FoldStep(b Base, e *expr.Expression, s string, err error) bool {
 //@   ensures  in == nil ==> s == "" && err == nil
 //@   ensures[no-partial-sql] Builtin(b) && err != nil ==> s == ""
 //@   ensures[boundary-text] IsBoundaryVal(in) && err == nil ==> len(s) >= 4
+//@   ensures[string-quoted] IsStringVal(in) ==> err == nil && s == "'"+strings.ReplaceAll(StringOf(in), "'", "''")+"'"
+//@   ensures[column-quoted] IsColumnVal(in) && err == nil ==> len(ColumnOf(in)) > 0 && !strings.ContainsRune(ColumnOf(in), '"') && s == "\""+ColumnOf(in)+"\""
 //@   loop 0: rangeinv true
 
 // ---- the parameterised renderer ---------------------------------------------------------------------
@@ -311,6 +320,7 @@ func OneStringParam(params []any, v string) bool {
 //@   ensures[boundary-text] IsBoundaryVal(in) && err == nil ==> len(s) >= 4
 //@   ensures[string-is-param] IsStringVal(in) ==> err == nil && s == "?" && OneStringParam(params, StringOf(in))
 //@   ensures[string-leaf-is-one-param] err == nil && IsStrLeaf(in) ==> OneStringParam(params, LeafString(in))
+//@   ensures[column-quoted] IsColumnVal(in) && err == nil ==> len(ColumnOf(in)) > 0 && !strings.ContainsRune(ColumnOf(in), '"') && s == "\""+ColumnOf(in)+"\"" && len(params) == 0
 //@   loop 0: rangeinv true
 
 // ---- validation guards rendering -----------------------------------------------------------------------
